@@ -5,7 +5,7 @@ import DarkluaModel.Shared.VisitorSound.Heap.HSoundStmt
 namespace DarkluaModel.Sem.Heap
 variable {Q : QRel} {cx : Cx} {D : List DName}
 
-theorem RRel.loopEnd {N : NumOps} {β β0 : CellRel} {env env' : Env N} {r : Option (List (Val N))} {σ σ' : State N}
+theorem RRel.loopEnd {N : NumOps} {β β0 : CellRel N} {env env' : Env N} {r : Option (List (Val N))} {σ σ' : State N}
     (he : EnvOK cx β0 D env env') (hle : β0.le β) (h : SRel Q cx β σ σ') :
     RRel Q cx β (ACtlS cx D)
       (match r with | some rv => (Res.ok (Ctl.ret rv) σ : Res N (Ctl N)) | none => .ok (.next env) σ)
@@ -24,7 +24,7 @@ theorem SoundS.assign {ts ts' vs vs'} (iht : SoundTs Q cx D ts ts') (ihv : Sound
   refine RRel.bindEq (storeTargets_param hc _ ((he.mono h1).mono h2).2 _ hok _ h) fun β3 h3 _ _ _ h => ?_
   exact RRel.ok (A := ACtlS cx D) (((he.mono h1).mono h2).mono h3) h
 
-theorem oldVal_rel {N : NumOps} {call : CallFn N} {ρ : ExtOracle N} {k : Nat} {env env' : Env N} {β : CellRel}
+theorem oldVal_rel {N : NumOps} {call : CallFn N} {ρ : ExtOracle N} {k : Nat} {env env' : Env N} {β : CellRel N}
     (hc : CallOK Q cx call) (he : EnvOK cx β D env env') (tg : Target N) {s s' : State N} (h : SRel Q cx β s s') :
     TargetOK D tg →
     RRel Q cx β AEq (match tg with
@@ -71,7 +71,7 @@ def addSelf (m : Option String) (f : FnBody) : FnBody :=
   | some _, .mk ps v vt r g a b => .mk (.mk "self" none :: ps) v vt r g a b
   | none, b => b
 
-theorem function_tail {N : NumOps} {call : CallFn N} {ρ : ExtOracle N} {k : Nat} {env env' : Env N} {β : CellRel}
+theorem function_tail {N : NumOps} {call : CallFn N} {ρ : ExtOracle N} {k : Nat} {env env' : Env N} {β : CellRel N}
     (hc : CallOK Q cx call) (he : EnvOK cx β D env env') {σ σ' : State N} (hs : SRel Q cx β σ σ')
     (name : List String) (m : Option String) (F F' : FnBody) (hF : Q D F F') :
     (∀ r, name.head? = some r → DName.ref r ∉ D ∧ DName.wat r ∉ D) →
@@ -135,7 +135,7 @@ theorem SoundS.gfor {ns ns' vs vs' b b' D'} (hn : ns.map TName.name = ns'.map TN
     exact (ihb.2 N call ρ k _ _ _ _ _ hc hs3 he4).mapA fun _ _ _ _ ha => ha.shape
   · exact h
 
-theorem nfor_tail {N : NumOps} {call : CallFn N} {ρ : ExtOracle N} {k : Nat} {env env' : Env N} {β : CellRel}
+theorem nfor_tail {N : NumOps} {call : CallFn N} {ρ : ExtOracle N} {k : Nat} {env env' : Env N} {β : CellRel N}
     (hc : CallOK Q cx call) (he : EnvOK cx β D env env')
     {n n' : TName} {body body' : Block} {D' : List DName} (hn : n.name = n'.name) (hw : DName.wat n'.name ∉ D) (ihbody : SoundB Q cx D body body' D')
     (a b c : List (Val N)) {σ σ' : State N} (h : SRel Q cx β σ σ') :
@@ -165,12 +165,12 @@ theorem nfor_tail {N : NumOps} {call : CallFn N} {ρ : ExtOracle N} {k : Nat} {e
     apply forLoop_rel
     · intro β2 h2 i s s' h
       have ha := h.allocBoth (.num i)
-      refine RRel.mono (le_extBoth (σ := s) (σ' := s')) ?_
+      refine RRel.mono (le_extBoth h) ?_
       rw [hn]
       have he3 : EnvOK cx (extBoth β2 s s') D
           { env with locals := (n'.name, (s.allocCell (.num i)).1) :: env.locals }
           { env' with locals := (n'.name, (s'.allocCell (.num i)).1) :: env'.locals } :=
-        ⟨he.va, ((he.mono h2).loc.mono le_extBoth).cons _ hw extBoth_new⟩
+        ⟨he.va, ((he.mono h2).loc.mono (le_extBoth h)).cons _ hw extBoth_new⟩
       exact (ihbody.2 N call ρ k _ _ _ _ _ hc ha he3).mapA fun _ _ _ _ ha => ha.shape
     · exact h
   · exact RRel.errS h
@@ -228,11 +228,11 @@ theorem SoundS.localFn {kind kind' name f f'} (hw : DName.wat name ∉ D) (hf : 
   simp only [execS]
   have h1 := hs.allocBoth .nil
   have he1 : LocOK cx (extBoth β σ σ') D ((name, (σ.allocCell .nil).1) :: env.locals)
-      ((name, (σ'.allocCell .nil).1) :: env'.locals) := (he.loc.mono le_extBoth).cons _ hw extBoth_new
+      ((name, (σ'.allocCell .nil).1) :: env'.locals)   := (he.loc.mono (le_extBoth hs)).cons _ hw extBoth_new
   have h2 := h1.allocClosure (c := ⟨f, (name, (σ.allocCell .nil).1) :: env.locals, []⟩)
     (c' := ⟨f', (name, (σ'.allocCell .nil).1) :: env'.locals, []⟩) ⟨rfl, D, hf, he1⟩
   rw [h2.1]
-  refine RRel.mono le_extBoth (RRel.ok (A := ACtlS cx D) ⟨he.va, he1⟩ ?_)
+  refine RRel.mono (le_extBoth hs) (RRel.ok (A := ACtlS cx D) ⟨he.va, he1⟩ ?_)
   exact h2.2.setCell extBoth_new _
 
 /-- a `repeat` iteration from its body (as an open block) and its condition -/
@@ -259,7 +259,7 @@ theorem SoundRep.mk {b b' c c' D'} (ihb : SoundB Q cx D b b' D') (ihc : SoundE Q
   · exact fin _ _ hcc _ _ h
   · exact RRel.ok (A := AOCtlS cx D) (show AOCtlS cx D β1 (some (.ret _)) (some (.ret _)) from hcc) h
 
-theorem AOCtlS.shape {N : NumOps} {β : CellRel} {c c' : Option (Ctl N)} (h : AOCtlS cx D β c c') : OCtlShape c c' := by
+theorem AOCtlS.shape {N : NumOps} {β : CellRel N} {c c' : Option (Ctl N)} (h : AOCtlS cx D β c c') : OCtlShape c c' := by
   cases c <;> cases c' <;> simp only [AOCtlS, OCtlShape] at h ⊢
   exact h.shape
 
